@@ -24,7 +24,7 @@ PROPS = {
         "rule": "GET with a Range header on objects of size 0..6 (quick) / 0..24 (thorough), 100 and 4097, on all six backend "
                 "instances; headers: all first/last/suffix in -1..n+2 in the three forms, int64/uint32 boundary values in every "
                 "position, whitespace/sign/unit/multi-range variants, seeded token soup. distinct_nontrivial = distinct "
-                "(backend, header, size) whose header reaches the arithmetic (parses as a single range). Malformed headers whose junk after 'bytes=' consists of the unit's own letters or '=' (bytes==1-2, bytes=bytes=1-2, bytes=e1-2 ...). On the real-directory fs backends six ranged reads are each the first read after the metadata records were wiped and the store reopened. Headers with a comma and a foreign or missing unit. Three ranged reads per backend are held open while twelve 40 KB writes commit, then read.",
+                "(backend, header, size) whose header reaches the arithmetic (parses as a single range). Malformed headers whose junk after 'bytes=' consists of the unit's own letters or '=' (bytes==1-2, bytes=bytes=1-2, bytes=e1-2 ...). On the real-directory fs backends six ranged reads are each the first read after the metadata records were wiped and the store reopened. Headers with a comma and a foreign or missing unit. Three ranged reads per backend are held open while twelve 40 KB writes commit, then read. Two sevenths of the requests carry a precondition next to the Range header (If-None-Match with an entity tag the object does not have, If-Modified-Since with an old date): it changes nothing.",
         "explanation": "Theorems: for every header string and every object below 2^63 bytes the modelled handler answers exactly "
                        "what the wrap-free spec says and never slices out of bounds. Tie: every run the Go handlers built from "
                        "/repo and the extracted model are evaluated on the same (header, object) cases and status, S3 code, "
@@ -42,7 +42,7 @@ PROPS = {
                 "lengths 1..70 of valid characters, IPv4/IPv6-looking names and seeded random strings; PUT /<name> through the "
                 "HTTP API on memory, bolt and multi-bucket fs (MemMapFs and real directory) for all strings up to length 4/3/3/2 "
                 "(quick) plus the special and random names and duplicates, with ListBuckets compared to the set of accepted names "
-                "every 500 requests. distinct_nontrivial = distinct accepted names (direct) + distinct (backend, name) created. The same corpus is sent (GET /<name>, and reads, sub-resources and uploads under invalid names) to servers with the auto-bucket option on memory, bolt and fs: a bucket comes to exist on first use exactly when its name is valid, and the bucket list is compared. A deleted bucket is addressed again (a multipart upload started before the delete is completed after it, an upload, a copy): it must not be listed again. Names of several lines (aaa\\n, \\naaa, aaa\\nA_, aaa.\\nbbb ...) and other white space / control characters around and inside valid names.",
+                "every 500 requests. distinct_nontrivial = distinct accepted names (direct) + distinct (backend, name) created. The same corpus is sent (GET /<name>, and reads, sub-resources and uploads under invalid names) to servers with the auto-bucket option on memory, bolt and fs: a bucket comes to exist on first use exactly when its name is valid, and the bucket list is compared. A deleted bucket is addressed again (a multipart upload started before the delete is completed after it, an upload, a copy): it must not be listed again. Names of several lines (aaa\\n, \\naaa, aaa\\nA_, aaa.\\nbbb ...) and other white space / control characters around and inside valid names. Uploads, copies and multipart uploads with keys that spell paths out of their bucket (../zzz-sideways/x, ../../zzz-up/x ...) followed by the bucket list: buckets come to exist through create-bucket only.",
         "explanation": "Theorem: the modelled validator equals the documented rule on every byte string of any length (no bound); "
                        "create succeeds iff valid and absent, a refusal creates nothing. Tie: the real ValidateBucketName and the "
                        "real create-bucket handlers are run on the same names as the extracted validator/spec and compared "
@@ -57,7 +57,7 @@ PROPS = {
                 "get, head, delete, multi-delete, copy incl. self-copy and cross-bucket copy, head bucket) on the memory backend with and "
                 "without auto-bucket, each followed by a probe (list buckets, list objects, get every key); plus seeded random sequences "
                 "of 40 (quick) / 60 (thorough) operations over 2 buckets x 4 keys x 3 bodies on all six backend instances with and "
-                "without auto-bucket. distinct_nontrivial = distinct sequences executed. The two buckets are named bkt and bkt2 (one name begins with the other); on the fs backends keys below an object and keys that are directories of other keys are read, deleted and copied from (never written: NoSuchKey everywhere); every fourth memory history runs the backend with versioning support switched off. Every third random history ends with c02Nesting (outside the model): an upload below an existing object, or onto a name that holds other keys, may be refused or stored, but the object acknowledged first keeps reading as written. Metadata sets include headers sent with an empty value. A third of the copies of the random histories (self-copies included) carry metadata of their own.",
+                "without auto-bucket. distinct_nontrivial = distinct sequences executed. The two buckets are named bkt and bkt2 (one name begins with the other); on the fs backends keys below an object and keys that are directories of other keys are read, deleted and copied from (never written: NoSuchKey everywhere); every fourth memory history runs the backend with versioning support switched off. Every third random history ends with c02Nesting (outside the model): an upload below an existing object, or onto a name that holds other keys, may be refused or stored, but the object acknowledged first keeps reading as written. Metadata sets include headers sent with an empty value. A third of the copies of the random histories (self-copies included) carry metadata of their own. On the fs backends every fifth upload or copy goes to a key above or below a stored key: the extracted fs_put_refused (Model/FsPut.v) on the model's live keys predicts the refusal (400 InvalidArgument, state unchanged) or the store.",
         "explanation": "Theorems: the modelled handlers satisfy the S3 laws for every reachable state and every operation sequence "
                        "(read-your-writes, frame, idempotent delete, bucket lifecycle, copy). Tie: every response of every sequence "
                        "(status, S3 code, body, ETag, bucket list, key list) produced by the Go handlers built from /repo is compared "
@@ -75,7 +75,7 @@ PROPS = {
                 "multi-delete with a version, put of another key), followed by a probe that GETs and HEADs every key with every id ever "
                 "issued; plus seeded random histories of 30/40 ops over three keys starting never-versioned. Version ids are compared "
                 "through a bijection built on first sight (model issue rank <-> implementation string). distinct_nontrivial = distinct "
-                "sequences executed.",
+                "sequences executed. Every third suspension is sent as a versioning document that does not mention the status.",
         "explanation": "Theorems over the version-stack model: fresh ids, archived versions retrievable until deleted, plain delete adds "
                        "a marker, delete-version removes just that version and promotes the newest remaining one, writes while suspended "
                        "never destroy versions created while enabled, no reachable state has a nil current version. Tie: each response "
@@ -93,7 +93,7 @@ PROPS = {
                 "'/'), seeded subsets of size 3..6 and five 'rich' sets (a-x a/x a.x, UTF-8, nested directories); for each set every "
                 "prefix over {a,b,/} of length <= 3 not starting with '/', delimiter absent and '/' (and 'b' on memory/bolt), V1 or "
                 "V2; the memory backend runs versioned with a delete-marked ghost key; every set is deleted again and the bucket "
-                "re-listed. fs backends: conflict-free sets only. distinct_nontrivial = distinct (backend, key set, prefix, delimiter). A rich set of names a directory walk may treat specially (segments beginning with a dot, a blank, a tilde; ending with a dot); every rich set runs on every backend also in the quick tier. On the real-directory fs backends every tenth set ends with uploads the file system refuses half way; on every backend ghost keys are stored and deleted before the listings. Half of the undelimited listings send an explicit empty delimiter= parameter. On the fs backends every second key set tries uploads one and two levels below a stored object (refused; outside the model); every fs listing is also compared, contents and common prefixes in order, with fs_list of the extracted Model/FsList.v on the directory tree of the live keys. On the memory backend every third key set deletes two delete-marked ghost keys once more while versioning is suspended.",
+                "re-listed. fs backends: conflict-free sets only. distinct_nontrivial = distinct (backend, key set, prefix, delimiter). A rich set of names a directory walk may treat specially (segments beginning with a dot, a blank, a tilde; ending with a dot); every rich set runs on every backend also in the quick tier. On the real-directory fs backends every tenth set ends with uploads the file system refuses half way; on every backend ghost keys are stored and deleted before the listings. Half of the undelimited listings send an explicit empty delimiter= parameter. On the fs backends every second key set tries uploads one and two levels below a stored object (refused; outside the model); every fs listing is also compared, contents and common prefixes in order, with fs_list of the extracted Model/FsList.v on the directory tree of the live keys. On the memory backend every third key set deletes two delete-marked ghost keys once more while versioning is suspended. On the memory backend every fourth key set removes the current version of a key with three versions by its id (the newest remaining one is listed) and of a key whose newest remaining version is a delete marker (hidden again).",
         "explanation": "Theorems: Prefix.Match equals the declarative classification (string prefix, first delimiter after it) for "
                        "every key/prefix/delimiter in the property's domain, and the unpaginated listing is exactly filter+group of the "
                        "sorted live keys. Tie: ListObjects responses (keys in order, sizes, ETags, common prefixes) of the Go handlers "
@@ -142,7 +142,7 @@ PROPS = {
                 "following NextPartNumberMarker and single pages from markers {0,1,2,4,13,14,41,42,10^6}; ListMultipartUploads walks "
                 "for every max-uploads 1..n+1 over six prefix/delimiter combinations following (NextKeyMarker, NextUploadIdMarker); "
                 "each walk is checked by a model-independent oracle (bound, every entry once, concatenation = unpaginated, each common "
-                "prefix once) and page by page against the model. distinct_nontrivial = distinct walks. A fixed history lists uploads whose groups are not neighbours in key order (/a/x, /b/x, a/y) unpaginated against the model. Every eighth history uses keys with white space at either end. Every second history ends by aborting what is left and listing the uploads of the bucket. A sixth of the part uploads spell the part number as a client may (010, 008, +3, 00013 decimal; 0x10, 0b11, 0o17, 1_0, 1e1, ' 5' name no part).",
+                "prefix once) and page by page against the model. distinct_nontrivial = distinct walks. A fixed history lists uploads whose groups are not neighbours in key order (/a/x, /b/x, a/y) unpaginated against the model. Every eighth history uses keys with white space at either end. Every second history ends by aborting what is left and listing the uploads of the bucket. A sixth of the part uploads spell the part number as a client may (010, 008, +3, 00013 decimal; 0x10, 0b11, 0o17, 1_0, 1e1, ' 5' name no part). A third of the uploads to a held part number are re-uploads the server refuses (digest of other bytes / more bytes than declared), followed by a part listing.",
         "explanation": "Theorems over the uploader model's listings (exactness w.r.t. the pending uploads / held parts, paging). Tie: "
                        "every page from the Go handlers vs the extracted model plus the walk oracle on the implementation's pages.",
         "assumptions": [],
@@ -158,7 +158,7 @@ PROPS = {
                 "ReadAll(exact / short / long declared size) and copy loops with buffers 1,2,7,512,32768; truncated and malformed "
                 "framings; then PUT with the streaming framing on all six backends with the same fragmentations, GET after each, "
                 "declared decoded length off by one and negative. distinct_nontrivial = distinct (payload length, chunking, schedule, "
-                "consumer) with a non-empty payload. aws-chunked part uploads and whole-object uploads are also sent with a Content-MD5: of their payload (accepted) and of other bytes (refused).",
+                "consumer) with a non-empty payload. aws-chunked part uploads and whole-object uploads are also sent with a Content-MD5: of their payload (accepted) and of other bytes (refused). Every other stream spells its chunk sizes with upper-case hex digits.",
         "explanation": "Theorem: for every payload, every chunking, every transport fragmentation and every consumer buffer schedule the "
                        "modelled decoder returns exactly the payload. Tie: the real chunkedReader (driven directly and through PUT) vs "
                        "the extracted state machine on the same streams and schedules; spec oracle: decoded bytes = payload, wrong "
@@ -177,7 +177,7 @@ PROPS = {
                 "bases (first / second base, configured with stray dots and a port); fall-backs (localhost, the base itself, a "
                 "multi-label prefix, an unrelated host); path-style with an extra leading and with a trailing slash. A recording "
                 "backend wrapper reports the bucket/key each handler addressed. distinct_nontrivial = distinct (variant, method, "
-                "sub-resource, bucket, key). Keys named like their bucket (bkt, bkt/k, bkt.s3.example.com/k) are in the pool. Twins for every order and combination of the two host options, host-bucket named explicitly off included. c16Concurrent: 16 x 1500 simultaneous host-style requests for 4 buckets to one server (bases, and plain host-bucket). Twins whose configured bases include <bucket>.<another base>. Four twins whose host-base option is given twice (the later list replaces the earlier; an empty list switches the bases off, alone and before host-bucket).",
+                "sub-resource, bucket, key). Keys named like their bucket (bkt, bkt/k, bkt.s3.example.com/k) are in the pool. Twins for every order and combination of the two host options, host-bucket named explicitly off included. c16Concurrent: 16 x 1500 simultaneous host-style requests for 4 buckets to one server (bases, and plain host-bucket). Twins whose configured bases include <bucket>.<another base>. Four twins whose host-base option is given twice (the later list replaces the earlier; an empty list switches the bases off, alone and before host-bucket). Four twins whose bases begin with the letters of a URL scheme (test.example, host.example:9000, play.example, p.example, http.example).",
         "explanation": "Theorems: the routed (bucket, object) of a host-style request equals that of the path-style request for every "
                        "bucket label, key path and base list; unmatched hosts fall back unchanged; extra slashes do not change the "
                        "address. Tie: recorded backend addresses of the Go handlers vs the extracted router; spec oracle: canonical "
@@ -194,7 +194,7 @@ PROPS = {
                 "resolves to), walks for max-keys 1..n+1 over four prefix/delimiter combinations following (NextKeyMarker, "
                 "NextVersionIdMarker) checked by a model-independent oracle (bound, every entry once, concatenation = unpaginated) and "
                 "page by page against the model, and single pages from marker pairs naming existing versions. distinct_nontrivial = "
-                "distinct walks. Every fifth history opens with deletes made while versioning is suspended over enabled-era versions; once versioning has ever been enabled every entry of the full listing is read back by the id it is listed with. Every fourth history has keys containing '+', a blank and '%20'. The marker pairs naming existing versions are also sent under five prefix / delimiter combinations (the marker's key inside, outside or grouped by the prefix).",
+                "distinct walks. Every fifth history opens with deletes made while versioning is suspended over enabled-era versions; once versioning has ever been enabled every entry of the full listing is read back by the id it is listed with. Every fourth history has keys containing '+', a blank and '%20'. The marker pairs naming existing versions are also sent under five prefix / delimiter combinations (the marker's key inside, outside or grouped by the prefix). Every third suspension is sent as a versioning document that does not mention the status.",
         "explanation": "Theorems over the version-listing model (exactness w.r.t. the stored versions, one IsLatest per key = the "
                        "current version, paging). Tie: every page from the Go handlers vs the extracted model, version ids through "
                        "the bijection, plus the walk oracle on the implementation's pages.",
@@ -212,7 +212,7 @@ PROPS = {
                 "same digest x length matrix, bad part numbers and failing readers for upload-part; after each request a snapshot "
                 "(GET+HEAD of the previous object incl. metadata, GET of the absent key, bucket listing, ListParts of the pending "
                 "upload) is compared with the model, whose state is unchanged by a rejected request. distinct_nontrivial = distinct "
-                "(backend, integrity, target, digest kind, length delta / failure point). Uploads the backend itself refuses (a path segment longer than a file name on real directories) are rejected uploads too: listings with and without delimiter and the other object are compared before and after, and the refused key must afterwards read as NoSuchKey and delete quietly. Key-limit cases in multi-byte characters: 512 / 513 two-byte, 342 three-byte, 257 four-byte characters (the limit counts bytes). An aws-chunked part with the Content-MD5 of its payload (accepted), of its framed bytes and of other bytes (refused, the held part unchanged). Multipart initiates with metadata totalling limit-1 / limit / limit+1 / limit+100. Bodies ending in LF / CRLF / CRLFCRLF with the declared length leaving exactly the line terminators out, with and without the digest of the bytes sent, plain and aws-chunked.",
+                "(backend, integrity, target, digest kind, length delta / failure point). Uploads the backend itself refuses (a path segment longer than a file name on real directories) are rejected uploads too: listings with and without delimiter and the other object are compared before and after, and the refused key must afterwards read as NoSuchKey and delete quietly. Key-limit cases in multi-byte characters: 512 / 513 two-byte, 342 three-byte, 257 four-byte characters (the limit counts bytes). An aws-chunked part with the Content-MD5 of its payload (accepted), of its framed bytes and of other bytes (refused, the held part unchanged). Multipart initiates with metadata totalling limit-1 / limit / limit+1 / limit+100. Bodies ending in LF / CRLF / CRLFCRLF with the declared length leaving exactly the line terminators out, with and without the digest of the bytes sent, plain and aws-chunked. Uploads to keys well inside the limit whose segments take 230 / 240 bytes in 115 / 80 multi-byte characters (accepted everywhere).",
         "explanation": "Theorems: the modelled upload path accepts iff the digest (when checked) matches the bytes received and the "
                        "declared length equals the body length; every rejection — for every reader failure point k — returns the state "
                        "unchanged. Tie: responses and before/after snapshots of the Go handlers on all six backends vs the extracted "
@@ -222,6 +222,7 @@ PROPS = {
     },
     "C10": {
         "title": "Buckets and keys are independent namespaces; internals are not addressable",
+        "extra_property_files": ["C10_fs"],
         "harness": "c10",
         "model": "Model/Mem.v + Model/Handlers.v (keys are opaque byte strings; unknown buckets answer NoSuchBucket) for memory and bolt; model-free frame oracle for every backend",
         "rule": "per backend: 6 (quick) / 60 (thorough) seeded histories of 40/60 operations (put, delete, get, copy, multi-delete, "
@@ -232,7 +233,7 @@ PROPS = {
                 "backends, every file on disk classified by bucket root) is compared with the snapshot before by the frame oracle: "
                 "only entries of the addressed (bucket, key) may change, a refused operation may change nothing, no file may appear "
                 "outside the addressed bucket's roots. Memory and bolt are additionally stepped against the model. "
-                "distinct_nontrivial = distinct (backend, bucket, key, status). Buckets bkc2 and bkc.x (names beginning with the name of bucket bkc) hold objects while the empty bucket bkc is created and deleted; the snapshot also records the common prefixes of a delimiter listing and, on real directories, the directories on disk; copies are also attempted from source buckets . .. buckets metadata _meta ./<bucket> spelling the path to a stored object (must be refused); every history ends with a force-delete (x-minio-force-delete) of a bucket that holds keys named like other buckets, under the frame oracle only. On memory and bolt the creation date is part of a bucket's list entry in the snapshot. The snapshot holds every pending multipart upload with its parts; uploads are started and their ids then used through another key of the bucket (refused, nothing changes). A third of the listings carry prefixes that spell paths to other buckets; everything listed must be a key written to the addressed bucket under that prefix. Listing completeness: for prefixes cut from stored keys, and at the end of every history for the beginning of every held key with and without delimiter, every key held under the prefix is shown or lies under a shown common prefix; the key-value backends hold /lead next to lead.",
+                "distinct_nontrivial = distinct (backend, bucket, key, status). Buckets bkc2 and bkc.x (names beginning with the name of bucket bkc) hold objects while the empty bucket bkc is created and deleted; the snapshot also records the common prefixes of a delimiter listing and, on real directories, the directories on disk; copies are also attempted from source buckets . .. buckets metadata _meta ./<bucket> spelling the path to a stored object (must be refused); every history ends with a force-delete (x-minio-force-delete) of a bucket that holds keys named like other buckets, under the frame oracle only. On memory and bolt the creation date is part of a bucket's list entry in the snapshot. The snapshot holds every pending multipart upload with its parts; uploads are started and their ids then used through another key of the bucket (refused, nothing changes). A third of the listings carry prefixes that spell paths to other buckets; everything listed must be a key written to the addressed bucket under that prefix. Listing completeness: for prefixes cut from stored keys, and at the end of every history for the beginning of every held key with and without delimiter, every key held under the prefix is shown or lies under a shown common prefix; the key-value backends hold /lead next to lead. c02Nesting at the end of every history: an upload above or below a stored key is refused or stored, never at the cost of the key that was there, and what is served is listed.",
         "explanation": "Theorems: frame laws of the model (an operation addressed to (bucket, key) changes no other (bucket, key); keys "
                        "that differ as byte strings are different objects; an unknown bucket name is never served). Tie: model "
                        "comparison on the opaque-key backends; the model-free frame oracle (extracted from Coq) on the observations "
@@ -256,7 +257,7 @@ PROPS = {
                 "/ copy over existing, to a new key / multi-delete / create-bucket, a wrapping file system kills the request immediately "
                 "before each state-changing call and half way through each file write; the calls logged must equal the model's sequence "
                 "and a new backend on what is left must answer exactly as the Coq crash model predicts for that call index. "
-                "distinct_nontrivial = distinct (backend, history, restart) + distinct crash points. After every crash point the delimiter listing of the next process is compared with its plain listing: a common prefix without a key is a violation (known finding D34 where it is the directory of the killed upload). The crash points also carry the directory model's view (coq/Model/CrashDirs.v): the directory-changing calls logged must be the model's, and the common prefixes without a key that the next process lists must be the set the model predicts for that call index. After the crash points of create-bucket the bucket is (re)created, written, read, listed, emptied and deleted in the next process. Before each in-process restart an object with metadata values that are not valid UTF-8 is uploaded; HEAD before and after the restart must agree. c15BoltSnapshots: for put / overwrite (bodies below and above a bolt page) / copy / multipart complete / create-bucket on bolt, a copy of the database file taken at the instant the backend asks its time source for the time (what kill -9 leaves there) is opened by a new backend: it shows the state before or after the request, entire.",
+                "distinct_nontrivial = distinct (backend, history, restart) + distinct crash points. After every crash point the delimiter listing of the next process is compared with its plain listing: a common prefix without a key is a violation (known finding D34 where it is the directory of the killed upload). The crash points also carry the directory model's view (coq/Model/CrashDirs.v): the directory-changing calls logged must be the model's, and the common prefixes without a key that the next process lists must be the set the model predicts for that call index. After the crash points of create-bucket the bucket is (re)created, written, read, listed, emptied and deleted in the next process. Before each in-process restart an object with metadata values that are not valid UTF-8 is uploaded; HEAD before and after the restart must agree. c15BoltSnapshots: for put / overwrite (bodies below and above a bolt page) / copy / multipart complete / create-bucket on bolt, a copy of the database file taken at the instant the backend asks its time source for the time (what kill -9 leaves there) is opened by a new backend: it shows the state before or after the request, entire. Before each restart an object whose key is not valid UTF-8 (a Latin-1 file name) is uploaded with metadata; GET before and after the restart must agree.",
         "explanation": "Theorems: every observable of the object API is a function of the persistent state alone (clean restart); for the fs "
                        "backends' call sequences: an uninterrupted PutObject is the abstract put, at EVERY crash point every other key answers "
                        "as before, DeleteObject is crash-atomic, every crash state of PutObject is one of a listed set, the invariant is kept "
@@ -278,7 +279,7 @@ PROPS = {
                 "metadata sets (none; Content-Type + x-amz-meta; Content-Type + Content-Encoding + Content-Disposition + a 900-byte "
                 "value), uploaded by PUT (with and without Content-MD5), browser-form POST, copy, and Backend.PutObject; each followed "
                 "by GET and HEAD over HTTP (and through the Backend API) and a listing of the key; later operations on other keys, "
-                "then the same reads again. distinct_nontrivial = distinct (backend, integrity, upload path, size, key). Copies are made inside the bucket and, every third one, from a second bucket that holds an object of the destination's name (which must stay what it is). On the key-value backends the twin-key groups include keys that differ by leading or doubled slashes (lead, /lead, //lead). Two keys carry white space at their ends (blank-padded; a tab and a trailing blank). heldRead: an object opened through Backend.GetObject is read after its key was overwritten; the bytes are those its size and hash describe. apiPutReusedBuffer: Go-API uploads from a buffer the caller refills afterwards. On every second store the twin-key groups are written and read virtual-host style (host-bucket / host-bucket-base server on the same backend). recycledBucketPut: an upload whose body is held back while its empty bucket is deleted and created again; if acknowledged it is readable.",
+                "then the same reads again. distinct_nontrivial = distinct (backend, integrity, upload path, size, key). Copies are made inside the bucket and, every third one, from a second bucket that holds an object of the destination's name (which must stay what it is). On the key-value backends the twin-key groups include keys that differ by leading or doubled slashes (lead, /lead, //lead). Two keys carry white space at their ends (blank-padded; a tab and a trailing blank). heldRead: an object opened through Backend.GetObject is read after its key was overwritten; the bytes are those its size and hash describe. apiPutReusedBuffer: Go-API uploads from a buffer the caller refills afterwards. On every second store the twin-key groups are written and read virtual-host style (host-bucket / host-bucket-base server on the same backend). recycledBucketPut: an upload whose body is held back while its empty bucket is deleted and created again; if acknowledged it is readable. The same bytes uploaded again to a key under other metadata (PUT, form POST, aws-chunked, Go API, copy onto itself; also an empty body); keys whose segments take 230 and 240 bytes in 115 and 80 characters.",
         "explanation": "Theorems: read-your-writes with the exact body and the metadata sent (C01_roundtrip), HEAD/GET agreement, "
                        "stability under operations on other keys (frame), listing entry = current version. Tie: the responses of the Go "
                        "handlers and of the Go Backend API vs the extracted model, with length and MD5 recomputed by the checker.",
@@ -299,7 +300,7 @@ PROPS = {
                 "missing or duplicate parts; aws-chunked incl. truncated with hostile decoded lengths) x hostile headers (Range, "
                 "Content-MD5, X-Amz-Copy-Source, Content-Length, conditionals, force-delete, oversized metadata). Every request runs "
                 "under recover() and a 5 s deadline; every 25 requests a canary sequence on a fresh bucket and on the fuzzed bucket is "
-                "compared with the model. distinct_nontrivial = distinct (backend, config, status, code, method, header count). The corpus and the fuzz pool hold keys of 200-210 bytes in 2-, 3- and 4-byte characters (written, read, listed, deleted). The versioned store holds delete markers between live keys of a group, last in a group and as a group of their own; the corpus pages object listings over them (max-keys 1..6 x 11 prefix / delimiter / marker combinations). Signed, huge, non-hexadecimal and empty aws-chunked chunk-size fields, as an object and as a part. Completes naming every part number 0..6, 10000, 10001, alone and after a valid first entry. A sixth configuration: a server with host-bucket bases addressed path-style; the canary on a fresh bucket carries a multipart upload from initiate to complete. On servers without a versioned backend the corpus sends versioning documents without a Status element.",
+                "compared with the model. distinct_nontrivial = distinct (backend, config, status, code, method, header count). The corpus and the fuzz pool hold keys of 200-210 bytes in 2-, 3- and 4-byte characters (written, read, listed, deleted). The versioned store holds delete markers between live keys of a group, last in a group and as a group of their own; the corpus pages object listings over them (max-keys 1..6 x 11 prefix / delimiter / marker combinations). Signed, huge, non-hexadecimal and empty aws-chunked chunk-size fields, as an object and as a part. Completes naming every part number 0..6, 10000, 10001, alone and after a valid first entry. A sixth configuration: a server with host-bucket bases addressed path-style; the canary on a fresh bucket carries a multipart upload from initiate to complete. On servers without a versioned backend the corpus sends versioning documents without a Status element. Every run ends with Minio's force-delete of buckets that hold objects followed by requests that must still be answered.",
         "explanation": "Theorems: no reachable state makes a modelled handler panic (object API, range, uploader complete/list with any "
                        "part number or marker, version listing), an error leaves the state unchanged, and the status of an error equals "
                        "the table entry of its code. Tie: model-free response oracle (extracted from Coq) on every response of the Go "
@@ -323,7 +324,7 @@ PROPS = {
                 "order of its requests reproduces every observed response on the model; sequential probes between rounds; (c) 16 clients x "
                 "40 simultaneous versioned PUTs: ids pairwise distinct, each id serves exactly its upload; (d) the workload (reduced) in a "
                 "binary built with -race: a report with a conflicting access in /repo code is a violation. Watchdogs report hangs. "
-                "distinct_nontrivial = distinct (backend, versioned, round). c07CopyStorm (every backend, also under the race detector): 8 clients copy one object carrying an ACL, user metadata and a content type to keys of their own while others GET / HEAD it; the source must read exactly as uploaded throughout and every copy is the source without its ACL. c07AutoBucketFirstUse (memory, bolt, fs): with the auto-bucket option six first requests for a bucket are held until all have found it absent; every one is served. Rounds with a cross-key operation include two-key multi-object deletes; c07MultiDeleteStorm (8 clients multi-deleting keys of their own while others read and list, every backend, memory also versioned); c07MetaStorm (40 rounds x 4 simultaneous PUTs of one key with metadata headers of their own: known finding D35 when a header is lost). The copy storm also copies onto keys that other clients overwrite: every copy's answer carries the ETag of its (never written) source. c07RequestIDs: 16 clients x 2500 (mem) / 800 (bolt) simultaneous cheap requests, every response with a request id of its own. The harness ends the run after two HANG reports.",
+                "distinct_nontrivial = distinct (backend, versioned, round). c07CopyStorm (every backend, also under the race detector): 8 clients copy one object carrying an ACL, user metadata and a content type to keys of their own while others GET / HEAD it; the source must read exactly as uploaded throughout and every copy is the source without its ACL. c07AutoBucketFirstUse (memory, bolt, fs): with the auto-bucket option six first requests for a bucket are held until all have found it absent; every one is served. Rounds with a cross-key operation include two-key multi-object deletes; c07MultiDeleteStorm (8 clients multi-deleting keys of their own while others read and list, every backend, memory also versioned); c07MetaStorm (40 rounds x 4 simultaneous PUTs of one key with metadata headers of their own: known finding D35 when a header is lost). The copy storm also copies onto keys that other clients overwrite: every copy's answer carries the ETag of its (never written) source. c07RequestIDs: 16 clients x 2500 (mem) / 800 (bolt) simultaneous cheap requests, every response with a request id of its own. The harness ends the run after two HANG reports. c07PruneRace: on the multi-bucket fs backend (MemMapFs behind a gated afero.Fs) the removal of the directory emptied by DELETE d/k1 is held open while PUT d/k2 arrives: the acknowledged upload is served and listed afterwards.",
         "explanation": "Theorems: for every number of clients, every program and EVERY schedule of the section model, the shared state and "
                        "each client's responses equal those of the sequential execution of the operations in Commit order, which respects "
                        "program order; Post delivers exactly what Commit captured (no torn reads). Tie: forced interleavings and "
